@@ -244,28 +244,238 @@ func main() {
 				seqsWithActions = n
 			}
 		}
-		var terms []string
-		panicked := ""
-		for _, so := range obs {
-			terms = append(terms, core.Sprintf("(%d, %d, %s)", so.K, so.Calls, core.List(so.Items)))
-			if so.Panic != "" && panicked == "" {
-				panicked = so.Panic
+		dist := map[string]any{"objects": total, "stops": len(obs), "reshaped": did, "blocks": len(p.Blocks),
+			"kept_differs": keptDiffers, "same_seq_walks": len(re), "seqs_with_actions": seqsWithActions, "change": "none"}
+		input := map[string]any{"seed": core.Seed(), "index": i, "opts": o}
+		emit(w, fmt.Sprintf("walk-%d", i), "walk", planTerm, obs, total > 3, dist, input)
+
+		// ---- the plan changes between obtaining the iterator and walking it, and between two walks of it.
+		// What is yielded must be the plan as it is when it is walked.
+		seqEarly := walk.Plan(p) // obtained now, walked only after the change
+		seqUsed := walk.Plan(p)  // walked before and after the change
+		walkSeq(seqUsed, paths, 0, nil)
+		walkSeq(seqUsed, paths, (total+1)/2, nil)
+		change := grow(r, g, p, nil)
+		paths1 := plancoq.PathIndex(p)
+		term1 := plancoq.NewCtx(set.Lookup).Plan(p)
+		var obs1 []stopObs
+		add1 := func(o stopObs, reading string) { o.Reading = reading; obs1 = append(obs1, o) }
+		o1, _ := walkSeq(seqEarly, paths1, 0, nil)
+		add1(o1, "changed-plan:iterator-obtained-before-the-change")
+		total1 := o1.Calls
+		o1, k1 := walkSeq(seqUsed, paths1, 0, nil)
+		add1(o1, "changed-plan:iterator-walked-before-and-after-the-change")
+		add1(k1, "changed-plan:iterator-walked-before-and-after-the-change,kept")
+		o1, _ = walkSeq(seqUsed, paths1, (total1+1)/2, nil)
+		add1(o1, "changed-plan:iterator-walked-before-and-after-the-change,stopped")
+		o1, _ = walkSeq(seqEarly, paths1, total1, nil)
+		add1(o1, "changed-plan:iterator-obtained-before-the-change,stopped-at-the-last")
+		o1, _ = walkStop(p, paths1, 0)
+		add1(o1, "changed-plan:fresh-iterator")
+		emit(w, fmt.Sprintf("walk-changed-%d", i), "walk-changed", term1, obs1, true,
+			map[string]any{"objects": o1.Calls, "stops": len(obs1), "reshaped": did, "blocks": len(p.Blocks), "kept_differs": 0,
+				"same_seq_walks": 0, "seqs_with_actions": seqsWithActions, "change": "before-walk:" + change}, input)
+
+		// ---- the consumer changes the plan while it is being walked: it adds, to the object it has just
+		// been handed (or to something that comes later), something the walk has not reached yet.  The walk
+		// reads every slice and every group when it gets there, so it yields what was added: the walk of the
+		// plan as it is afterwards.  (Additions to a slice the walk is already ranging over - a Block while
+		// inside a Block, an Action while inside the Actions of the same Sequence - are NOT asserted: Go's
+		// range has copied the slice header, another loop form would not have; the property does not say.)
+		var kept []walk.Item
+		live := ""
+		seqLive := walk.Plan(p)
+		// the item at which the consumer strikes: the kind of object first (uniform), then one of that kind
+		byKind := map[string][]int{}
+		var kindsSeen []string
+		n0 := 0
+		walk.Plan(p)(func(it walk.Item) bool {
+			k := fmt.Sprintf("%T", it.Value)
+			if byKind[k] == nil {
+				kindsSeen = append(kindsSeen, k)
+			}
+			byKind[k] = append(byKind[k], n0)
+			n0++
+			return true
+		})
+		ofKind := byKind[kindsSeen[r.Intn(len(kindsSeen))]]
+		pick := ofKind[r.Intn(len(ofKind))]
+		calls := 0
+		seqLive(func(it walk.Item) bool {
+			if calls == pick {
+				live = grow(r, g, p, it.Value)
+			}
+			calls++
+			kept = append(kept, it)
+			return true
+		})
+		paths2 := plancoq.PathIndex(p)
+		term2 := plancoq.NewCtx(set.Lookup).Plan(p)
+		o2 := stopObs{K: 0, Calls: calls, Reading: "live-change:walk-during-which-the-consumer-added-" + live}
+		for _, it := range kept {
+			o2.Items = append(o2.Items, itemTerm(paths2, it))
+		}
+		o3, _ := walkStop(p, paths2, 0)
+		o3.Reading = "live-change:fresh-iterator-afterwards"
+		emit(w, fmt.Sprintf("walk-live-%d", i), "walk-live", term2, []stopObs{o2, o3}, true,
+			map[string]any{"objects": o3.Calls, "stops": 2, "reshaped": did, "blocks": len(p.Blocks), "kept_differs": 0,
+				"same_seq_walks": 0, "seqs_with_actions": seqsWithActions, "change": "during-walk:" + live}, input)
+	}
+}
+
+func emit(w *core.Writer, id, kind, planTerm string, obs []stopObs, nontrivial bool, dist map[string]any, input any) {
+	var terms []string
+	panicked := ""
+	for _, so := range obs {
+		terms = append(terms, core.Sprintf("(%d, %d, %s)", so.K, so.Calls, core.List(so.Items)))
+		if so.Panic != "" && panicked == "" {
+			panicked = so.Panic
+		}
+	}
+	c := core.Case{
+		ID:         id,
+		Kind:       kind,
+		Coq:        core.Pair(planTerm, core.List(terms)),
+		Nontrivial: nontrivial,
+		Hash:       core.Hash(kind, strings.Join(obs[0].Items, "|")),
+		Dist:       dist,
+		Input:      input,
+		Observed:   obs,
+	}
+	if panicked != "" {
+		c.Note = "panic: " + panicked
+	}
+	w.Put(c)
+}
+
+// grow adds one object to the plan and says what.  at == nil: anywhere (a block, a sequence, an action of a
+// sequence or of a group, an absent check group of the plan or of a block).  at != nil: the addition a consumer
+// makes when it is handed `at` - something the walk reads only after having yielded `at`:
+//
+//	plan     -> an absent plan group, or a block;
+//	block    -> an absent group of it, or a sequence of it;
+//	sequence -> an action of it;  group -> an action of it;
+//	action   -> the plan's deferred group (the last thing any walk reaches): set if absent, else an action appended
+//	            to it - unless the action handed over is itself in that group (then nothing).
+func grow(r *core.Rand, g *plangen.Gen, p *workflow.Plan, at workflow.Object) string {
+	setAbsent := func(slots []**workflow.Checks, names []string, where string) string {
+		var free []int
+		for i, s := range slots {
+			if *s == nil {
+				free = append(free, i)
 			}
 		}
-		c := core.Case{
-			ID:         fmt.Sprintf("walk-%d", i),
-			Kind:       "walk",
-			Coq:        core.Pair(planTerm, core.List(terms)),
-			Nontrivial: total > 3,
-			Hash:       core.Hash(strings.Join(full.Items, "|")),
-			Dist:       map[string]any{"objects": total, "stops": len(obs), "reshaped": did, "blocks": len(p.Blocks),
-				"kept_differs": keptDiffers, "same_seq_walks": len(re), "seqs_with_actions": seqsWithActions},
-			Input:      map[string]any{"seed": core.Seed(), "index": i, "opts": o},
-			Observed:   obs,
+		if len(free) == 0 {
+			return ""
 		}
-		if panicked != "" {
-			c.Note = "panic: " + panicked
-		}
-		w.Put(c)
+		k := free[r.Intn(len(free))]
+		*slots[k] = g.Checks("x/" + names[k])
+		return where + " group " + names[k] + " set"
 	}
+	gnames := []string{"bypass", "pre", "cont", "post", "deferred"}
+	pslots := func() []**workflow.Checks {
+		return []**workflow.Checks{&p.BypassChecks, &p.PreChecks, &p.ContChecks, &p.PostChecks, &p.DeferredChecks}
+	}
+	bslots := func(b *workflow.Block) []**workflow.Checks {
+		return []**workflow.Checks{&b.BypassChecks, &b.PreChecks, &b.ContChecks, &b.PostChecks, &b.DeferredChecks}
+	}
+	addBlock := func() string { p.Blocks = append(p.Blocks, g.Block("x/b")); return "block appended" }
+	addSeq := func(b *workflow.Block) string {
+		b.Sequences = append(b.Sequences, g.Sequence("x/s"))
+		return "sequence appended to a block"
+	}
+	addSeqAct := func(q *workflow.Sequence) string {
+		q.Actions = append(q.Actions, g.Action(false, "x/a"))
+		return "action appended to a sequence"
+	}
+	addChkAct := func(k *workflow.Checks) string {
+		k.Actions = append(k.Actions, g.Action(true, "x/ca"))
+		return "action appended to a group"
+	}
+	switch t := at.(type) {
+	case *workflow.Plan:
+		if r.Chance(0.5) {
+			if s := setAbsent(pslots(), gnames, "plan"); s != "" {
+				return s
+			}
+		}
+		return addBlock()
+	case *workflow.Block:
+		if r.Chance(0.5) {
+			if s := setAbsent(bslots(t), gnames, "this block's"); s != "" {
+				return s
+			}
+		}
+		return addSeq(t) + " (this one)"
+	case *workflow.Sequence:
+		return addSeqAct(t) + " (this one)"
+	case *workflow.Checks:
+		return addChkAct(t) + " (this one)"
+	case *workflow.Action:
+		// later than anything an action can be part of, except the plan's own deferred group
+		if p.DeferredChecks == nil {
+			p.DeferredChecks = g.Checks("x/deferred")
+			return "plan group deferred set (from an action)"
+		}
+		for _, a := range p.DeferredChecks.Actions {
+			if a == t {
+				return "nothing (action of the plan's deferred group)"
+			}
+		}
+		return addChkAct(p.DeferredChecks) + " (plan deferred, from an action)"
+	}
+	// anywhere
+	var blocks []*workflow.Block
+	var seqs []*workflow.Sequence
+	var groups []*workflow.Checks
+	for _, k := range pslots() {
+		if *k != nil {
+			groups = append(groups, *k)
+		}
+	}
+	for _, b := range p.Blocks {
+		if b == nil {
+			continue
+		}
+		blocks = append(blocks, b)
+		for _, k := range bslots(b) {
+			if *k != nil {
+				groups = append(groups, *k)
+			}
+		}
+		for _, q := range b.Sequences {
+			if q != nil {
+				seqs = append(seqs, q)
+			}
+		}
+	}
+	for try := 0; try < 20; try++ {
+		switch r.Intn(6) {
+		case 0:
+			return addBlock()
+		case 1:
+			if len(blocks) > 0 {
+				return addSeq(blocks[r.Intn(len(blocks))])
+			}
+		case 2:
+			if len(seqs) > 0 {
+				return addSeqAct(seqs[r.Intn(len(seqs))])
+			}
+		case 3:
+			if len(groups) > 0 {
+				return addChkAct(groups[r.Intn(len(groups))])
+			}
+		case 4:
+			if s := setAbsent(pslots(), gnames, "plan"); s != "" {
+				return s
+			}
+		case 5:
+			if len(blocks) > 0 {
+				if s := setAbsent(bslots(blocks[r.Intn(len(blocks))]), gnames, "a block's"); s != "" {
+					return s
+				}
+			}
+		}
+	}
+	return addBlock()
 }
